@@ -113,13 +113,21 @@ class C12(Spec):
             elif op == "v7":
                 if p - pos > 5:
                     return ("wrong-consumption", "%s consumed %d > 5 bytes" % (where, p - pos))
-                if ok and unleb(data, pos) is None:
-                    return ("bad-7bit-accepted", "%s returned %s for a group that is truncated or whose fifth byte is > 15 "
-                            "(more than 32 bits) instead of ErrBad7BitInt / ErrNotEnoughData" % (where, out[:40]))
+                # a decoder that ACCEPTS a fifth byte > 15 (more than 32 bits) still "returns a value" — the property's
+                # statement does not forbid that leniency, so it is left to the model correspondence (reported as
+                # no-failing-input-found); only a value produced from a TRUNCATED group is a violation of the property
+                fifth_over = (len(data) - pos >= 5 and all(data[pos + i] & 0x80 for i in range(4)) and data[pos + 4] > 15)
+                if ok and unleb(data, pos) is None and not fifth_over:
+                    return ("truncated-7bit-accepted", "%s returned %s for a truncated 7-bit group instead of "
+                            "ErrNotEnoughData" % (where, out[:40]))
             elif op in ("bytes", "str"):
                 r = unleb(data, pos)
                 if ok:
                     got = unhex(out[3:])
+                    fifth_over = (len(data) - pos >= 5 and all(data[pos + i] & 0x80 for i in range(4)) and data[pos + 4] > 15)
+                    if r is None and fifth_over:
+                        pos = p  # lenient acceptance of an over-long prefix: left to the model correspondence (see v7)
+                        continue
                     if r is None or r[0] < 0:
                         return ("readbytes-inexact", "%s succeeded on a malformed/negative prefix" % where)
                     size, q = r
